@@ -5,6 +5,7 @@ import (
 	"encoding/base64"
 	"encoding/json"
 	"fmt"
+	"math"
 	"math/big"
 	"net/http"
 	"net/http/httptest"
@@ -130,6 +131,26 @@ func c19nearest(ip, fp string, neg bool) (float64, bool) {
 	}
 	f, _ := r.Float64()
 	return f, true
+}
+
+// c19ovfThreshold is 2^1024 - 2^970: the smallest magnitude that IEEE 754
+// round-to-nearest-even takes to infinity (MaxFloat64 plus half an ulp).
+var c19ovfThreshold = func() *big.Int {
+	a := new(big.Int).Lsh(big.NewInt(1), 1024)
+	return a.Sub(a, new(big.Int).Lsh(big.NewInt(1), 970))
+}()
+
+// c19overflows reports, by exact integer arithmetic, whether the decimal
+// ip.fp is too large in magnitude to have a finite nearest float64. The
+// fraction only matters when the integer part is exactly threshold-1, and
+// then it cannot reach the threshold, so the integer part decides.
+func c19overflows(ip, fp string) bool {
+	ip = strings.TrimLeft(ip, "0")
+	if len(ip) < 309 {
+		return false
+	}
+	z, ok := new(big.Int).SetString(ip, 10)
+	return ok && z.Cmp(c19ovfThreshold) >= 0
 }
 
 // c19jsonString decodes a double-quoted JSON string by hand (RFC 8259).
@@ -283,6 +304,14 @@ func c19classify(v string) []c19out {
 	if strict, lenient, ip, fp, neg, point := c19number(v); strict || lenient {
 		f, ok := c19nearest(ip, fp, neg)
 		if !ok {
+			return []c19out{lit}
+		}
+		if c19overflows(ip, fp) || math.IsInf(f, 0) || math.IsNaN(f) {
+			// The magnitude has no finite float64 (it rounds past MaxFloat64).
+			// A JSON number must be finite, so the value cannot be typed as a
+			// number; what is left is the catch-all rule: the literal string.
+			// (Without a fraction the digits might still be an int64: never,
+			// an int64 has at most 19 digits.)
 			return []c19out{lit}
 		}
 		fo := c19out{kind: c19Float, f: f}
